@@ -423,7 +423,7 @@ func originRefined(u *astUniverse, f *types.Var, fa *ssa.FieldAddr) bool {
 // relation between two values rather than a dominating nil test.
 var optNilCorrelations = map[string]string{
 	"interpreter.(*Interpreter).ProcessFunctionSubroutine|SubroutineDeclaration.ReturnType": "every caller passes a node taken from SubroutineFunctions / MockedFunctioncalSubroutines (guarded containers: insertions are dominated by ReturnType != nil); testing.call_subroutine passes the result of resolveSubroutine only when its `functional` flag is true, which is returned exactly with those two containers",
-	"interpreter.(*Interpreter).ProcessCaseStatement|CaseStatement.Test": "Cases[offset].Test is nil exactly for the default case, and ParseSwitchStatement sets stmt.Default to that index (one default at most); the use is on the `stmt.Default != offset` branch",
+	"interpreter.(*Interpreter).ProcessCaseStatement|CaseStatement.Test":                    "Cases[offset].Test is nil exactly for the default case, and ParseSwitchStatement sets stmt.Default to that index (one default at most); the use is on the `stmt.Default != offset` branch",
 }
 
 // guardedContainers: map-typed struct fields all of whose insertions store a node whose field f was tested non-nil.
